@@ -352,7 +352,7 @@ class AsynchronousDeferredRunTest(_DeferredRunTest):
         fails = []
 
         def fail_if_exception_caught(exception_caught):
-            if self.exception_caught == exception_caught:
+            if self.exception_caught is exception_caught:
                 fails.append(None)
 
         def clean_up(ignored=None):
@@ -367,7 +367,7 @@ class AsynchronousDeferredRunTest(_DeferredRunTest):
 
         def set_up_done(exception_caught):
             """Set up is done, either clean up or run the test."""
-            if self.exception_caught == exception_caught:
+            if self.exception_caught is exception_caught:
                 fails.append(None)
                 return clean_up()
             else:
